@@ -46,7 +46,7 @@ class Checker:
         ncase = 0
         for f in case_split([got, want], facts):
             ncase += 1
-            if "apre" in tu.meta[fn]["params"] and "pre" in tu.meta[fn]["params"]:
+            if "apre" in tu.meta[fn]["params"] and "pre" in tu.meta[fn]["params"] and "q1" in tu.meta[fn]["params"]:
                 # conditional pre-state invariants whose hypothesis this case decides
                 f = add_invariants(tu, fn, f)
                 if f.infeasible():
